@@ -248,6 +248,12 @@ Qed.
 Lemma repeat_list_0 n : repeat_list n [0] = repeat 0 n.
 Proof. induction n as [|n IH]; [reflexivity|]. cbn. rewrite IH. reflexivity. Qed.
 
+Lemma len_2 {A} (x y : A) : len [x; y] = 2.
+Proof. reflexivity. Qed.
+
+Lemma zs_eqb_bytes_eqb a : forall b, zs_eqb a b = bytes_eqb a b.
+Proof. induction a as [|x a IH]; intros [|y b]; cbn; rewrite ?IH; reflexivity. Qed.
+
 (* ---- the tie tactic: cbn, then case analysis on the innermost stuck bind / if ------------------------ *)
 Ltac known t := match goal with H : t = _ |- _ => rewrite H end.
 Ltac dbind :=
@@ -278,12 +284,14 @@ Ltac dif :=
     end; first [known t | destruct t eqn:?]
   end.
 Ltac nats := change (Pos.to_nat 1) with 1%nat in *; change (Pos.to_nat 2) with 2%nat in *;
-             change (Pos.to_nat 4) with 4%nat in *; change (Pos.to_nat 8) with 8%nat in *.
+             change (Pos.to_nat 4) with 4%nat in *; change (Pos.to_nat 8) with 8%nat in *;
+             change (Pos.to_nat 16) with 16%nat in *; change (Pos.to_nat 20) with 20%nat in *.
 Ltac lk := repeat match goal with H : lookup ?x ?e = _ |- context [lookup ?x ?e] => rewrite H; cbn end.
 Ltac dpairs := repeat match goal with p : (_ * _)%type |- _ => destruct p end.
 Ltac tie1 :=
+  try match goal with |- _ <> OutOfFuel -> _ => intro end;
   dpairs; cbn; try unfold lift_fst; try (progress unfold test; cbn); lk; nats;
-  repeat (progress rewrite ?len_map, ?len_nil, ?index_0, ?index_1, ?join_bytes_nil, ?repeat_list_0; cbn);
+  repeat (progress rewrite ?len_map, ?len_nil, ?index_0, ?index_1, ?join_bytes_nil, ?repeat_list_0, ?zs_eqb_bytes_eqb, ?len_2; cbn);
   rewrite ?to_bytes_le_eq, ?to_bytes_be_eq, ?app_nil_r, <- ?app_assoc; try reflexivity.
 Ltac tie := repeat (tie1; first [dbind | dif]); tie1.
 
@@ -304,7 +312,7 @@ Lemma for_range_tie {St : Type} (W : world (pv obj)) fuel x body (mbody : St -> 
   (forall s env v, R s env ->
      match mbody s with
      | Ok (s', _) => exists env', exec_block W fuel body (update x v env) = Ok (Next env') /\ R s' env'
-     | Raise e => exec_block W fuel body (update x v env) = Raise e
+     | Raise e => e <> OutOfFuel -> exec_block W fuel body (update x v env) = Raise e
      end) ->
   forall mfuel n s env ticks lo, R s env ->
     for_range mfuel n mbody s ticks <> Raise OutOfFuel ->
@@ -324,7 +332,7 @@ Proof.
       destruct (mbody s) as [[s' t]|e].
       * destruct Hbody as [env' [He HR']]. rewrite He. cbn [bind].
         apply IH; assumption.
-      * rewrite Hbody. reflexivity.
+      * cbn [bind] in Hne. rewrite Hbody by congruence. reflexivity.
 Qed.
 
 (* ---- b"".join([x.pack() for x in xs]) ------------------------------------------------------------ *)
